@@ -156,6 +156,9 @@ class BaseHandler:
             and (self.selector.find(".\\") == -1)
             and (self.selector.find("\\\\") == -1)
             and (self.selector.find("\0") == -1)
+            # A trailing "." segment is an alias of the directory itself: its
+            # children would be "<dir>/./name", which the tests above refuse.
+            and not self.selector.endswith("/.")
         )
 
     def canhandlerequest(self) -> bool:
